@@ -70,11 +70,13 @@ class Profile:
     calls_in_for_list: bool = False                 # known finding F-C06-a (ra clobbered inside the for-list body subroutine)
     max_globals: int = 4
     call_heavy: bool = False                        # more nested calls and early returns (C06 / C01 call paths)
+    cond_compare_only: bool = False                 # `if` tests are comparisons (optionally under one `not`)
     no_params: bool = False                         # parameterless functions (inlining binds parameters by aliasing: F-C02-c)
     procedures_only: bool = False                   # functions return nothing (inlining of value-returning functions: F-C04-b/c)
     return_in_loops: bool = False                   # functions whose loop bodies end in a conditional return
     tco_safe: bool = False                          # tail calls only in functions with no other call and no early return (F-C02-a family)
     global_writes: bool = True                      # functions assign module-level variables (`global g`)
+    loop_control: bool = True                       # break / continue at all
     loopctl_heavy: bool = False                     # many break / continue / dead loops (C05 loop-label paths)
     dead_loops: bool = True                         # `while False:` blocks (disabled code)
     named_constants: bool = True                    # module-level single-assignment constants used by name (folded by the transpiler)
@@ -500,6 +502,13 @@ class Gen:
             return [self.aug_stmt(sc)]
         if k < 0.70 and can_nest:
             c = self.bool_expr(sc, 1) if r.random() < 0.85 else self.expr(sc, 1, allow_call=False)
+            if self.p.cond_compare_only:
+                a_, b_ = self.expr(sc, 2, allow_call=False), self.expr(sc, 2, allow_call=False)
+                if a_[0] == "num" and b_[0] == "num":
+                    a_ = self.read_expr(sc, 2)
+                c = ("bin", BINOPS[r.choice(CMP)], a_, b_)
+                if r.random() < 0.25:
+                    c = ("un", "not", c)
             CMPS = ("slt", "sgt", "sle", "sge", "seq", "sne", "and", "or")
             def testable(e, top=True):
                 # supported `if` tests: comparison, and/or, a name, an attribute read, and `not` of one of those (once)
@@ -527,7 +536,7 @@ class Gen:
             if c:
                 self.feat("call_stmt")
                 return [("expr", c)]
-        if k < 0.90 and sc.in_loop:
+        if k < 0.90 and sc.in_loop and self.p.loop_control:
             kind = sc.loop_kind[-1]
             if r.random() < 0.5:
                 self.feat("break")
